@@ -259,6 +259,10 @@ theorem WEff.same {s0 : CallSt} {w w' : WalkSt} (h : WEff s0 w) (he' : w'.err = 
   unfold copyFrom; split <;> simp
 @[simp] theorem copyFrom_memo (s : CallSt) (p : Option Vtx) (v : Vtx) : (copyFrom s p v).memo = s.memo := by
   unfold copyFrom; split <;> simp
+@[simp] theorem valCopy_log (c : Ctx) (s : CallSt) (p : Option Vtx) (v : Vtx) : (valCopy c s p v).log = s.log := by
+  rcases valCopy_cases c s p v with h | ⟨_, _, _, _, _, _, _, h⟩ <;> rw [h] <;> simp
+@[simp] theorem valCopy_memo (c : Ctx) (s : CallSt) (p : Option Vtx) (v : Vtx) : (valCopy c s p v).memo = s.memo := by
+  rcases valCopy_cases c s p v with h | ⟨_, _, _, _, _, _, _, h⟩ <;> rw [h] <;> simp
 @[simp] theorem argStore_log (c : Ctx) (s : CallSt) (t : Nat) (v : Vtx) : (argStore c s t v).log = s.log := by
   unfold argStore; split <;> (try split) <;> simp
 @[simp] theorem argStore_memo (c : Ctx) (s : CallSt) (t : Nat) (v : Vtx) : (argStore c s t v).memo = s.memo := by
